@@ -216,6 +216,8 @@ def run_mapping(case, ctx):
             f = lambda: d.relabel(case['arg'])
         elif how == 'upper':
             f = lambda: d.relabel(lambda s: s.upper())
+        elif how == 'names':
+            f = lambda: d.relabel([mp[k] for k in base]) if case.get('as_list', True) else d.relabel(*[mp[k] for k in base])        # one new name per key, in key order
         elif how == 'dict_kw':
             ks_ = list(mp)
             m1 = {k: mp[k] for k in ks_[:len(ks_) // 2]}
@@ -373,8 +375,14 @@ def gen_map(rng):
         case['oplain'] = rng.random() < 0.6
         case['ocls'] = rng.choice(['dictattr', 'Dict'])
     elif op == 'relabel':
-        how = rng.choice(['kw', 'rename', 'dict', 'prefix', 'suffix', 'upper', 'dict_kw'])
+        how = rng.choice(['kw', 'rename', 'dict', 'prefix', 'suffix', 'upper', 'dict_kw', 'names'])
         case['how'] = how
+        if how == 'names':
+            if not ks:
+                how = case['how'] = 'upper'
+            else:
+                case['map'] = {k: 'N%d' % i for i, k in enumerate(ks)}
+                case['as_list'] = rng.random() < 0.6
         if how in ('kw', 'rename', 'dict', 'dict_kw'):
             if len(ks) >= 2 and rng.random() < 0.35:
                 # a permutation of existing names (swap / rotation) or a shift onto a name that is itself renamed away
@@ -391,7 +399,7 @@ def gen_map(rng):
             case['arg'] = 'p_'; case['map'] = {k: 'p_' + k for k in ks}
         elif how == 'suffix':
             case['arg'] = '_s'; case['map'] = {k: k + '_s' for k in ks}
-        else:
+        elif how != 'names':
             case['map'] = {k: k.upper() for k in ks}
         if case['how'] in ('kw', 'rename', 'dict_kw') and 'self' in case['map']:
             case['how'] = 'dict'        # as a keyword, 'self' IS the method's parameter
